@@ -5,7 +5,8 @@ C20 — genesis. Stands for
   chain/nom/momentum_content.go   NewMomentumContent, AccountBlockHeaderComparer
   common/types/account_header.go  AccountHeader.Bytes
   chain/genesis/shared_tests.go   CheckGenesis and its five validators, checkAccountBalance (as repaired by 842d79c,
-                                  bf6e6a8, 5b5b1ec, 4c4dee5: no-entry, duplicate-entry, nil/negative-amount, MaxSupply checks)
+                                  bf6e6a8, 5b5b1ec, 4c4dee5, feb4686: no-entry, duplicate-entry, nil/negative-amount,
+                                  MaxSupply checks, nil/negative fusion, pillar and swap amounts)
   chain/genesis/account_block.go  wrap (how GenesisBlocks entries become ledger balances: SetBalance per entry,
                                   in list order, for every entry of the address — later entries overwrite)
   chain/chain.go                  checkGenesisCompatibility
@@ -64,10 +65,10 @@ structure Config where
   hasSwap : Bool := true
   blocks : List Block := []
   tokens : List Token := []
-  /-- `PillarConfig.Pillars[i].Amount` -/
-  pillars : List Int := []
-  /-- `PlasmaConfig.Fusions[i].Amount`; `none` = nil entry -/
-  fusions : List (Option Int) := []
+  /-- `PillarConfig.Pillars[i].Amount`; `none` = nil amount -/
+  pillars : List (Option Int) := []
+  /-- `PlasmaConfig.Fusions[i]`: `none` = nil entry, `some none` = entry with a nil `Amount`, `some (some a)` = amount `a` -/
+  fusions : List (Option (Option Int)) := []
   /-- `SwapConfig.Entries[i].(Znn, Qsr)`; `none` = nil amount -/
   swaps : List (Option Int × Option Int) := []
   deriving DecidableEq, Repr
@@ -106,31 +107,45 @@ def checkAccountBalance (c : Config) (addr : Bytes) (required : List (Bytes × I
   (ownBlocks c addr).all (blockOK required) &&
     (!(ownBlocks c addr).isEmpty || required.all (fun r => r.2 == 0))
 
-def fusionSum (c : Config) : Int := isum (c.fusions.map (fun f => f.getD 0))
-def pillarSum (c : Config) : Int := isum c.pillars
+/-- `amount == nil || amount.Sign() < 0` is the error (balance lists since 5b5b1ec; fusion, pillar and swap amounts
+    since feb4686) -/
+def amountOK (a : Option Int) : Bool :=
+  match a with
+  | none => false
+  | some v => decide (0 ≤ v)
+
+/-- the amount of a fusion entry (0 for a nil entry / nil amount: never summed, the loop has returned before) -/
+def fusionAmt (f : Option (Option Int)) : Int := (f.getD none).getD 0
+
+/-- the loop body of `CheckPlasmaInfo` before the addition: `fusion == nil` is the first error, then
+    `fusion.Amount == nil || fusion.Amount.Sign() < 0` -/
+def fusionOK (f : Option (Option Int)) : Bool :=
+  match f with
+  | none => false
+  | some a => amountOK a
+
+def fusionSum (c : Config) : Int := isum (c.fusions.map fusionAmt)
+def pillarSum (c : Config) : Int := isum (c.pillars.map (fun p => p.getD 0))
 
 /-- `CheckFieldsExist` -/
 def checkFieldsExist (c : Config) : Bool :=
   c.hasBlocks && c.hasTokens && c.hasPillars && c.hasSporkAddr && c.hasPlasma && c.hasSwap
 
-/-- `CheckPlasmaInfo` -/
+/-- `CheckPlasmaInfo`: the loop over the fusions (entry present, amount present and non-negative, add), then the
+    plasma contract must hold the sum in QSR -/
 def checkPlasmaInfo (c : Config) : Bool :=
-  c.fusions.all (·.isSome) && checkAccountBalance c Gen.PlasmaContract [(Gen.QsrTokenStandard, fusionSum c)]
+  c.fusions.all fusionOK && checkAccountBalance c Gen.PlasmaContract [(Gen.QsrTokenStandard, fusionSum c)]
 
-/-- `CheckSwapAccount` -/
+/-- `CheckSwapAccount`: every entry has both amounts present and non-negative
+    (`Qsr == nil || Znn == nil || Qsr.Sign() < 0 || Znn.Sign() < 0` is the error), then the swap contract holds 0 / 0 -/
 def checkSwapAccount (c : Config) : Bool :=
-  c.swaps.all (fun e => e.1.isSome && e.2.isSome) &&
+  c.swaps.all (fun e => amountOK e.1 && amountOK e.2) &&
     checkAccountBalance c Gen.SwapContract [(Gen.ZnnTokenStandard, 0), (Gen.QsrTokenStandard, 0)]
 
-/-- `CheckPillarBalance` -/
+/-- `CheckPillarBalance`: the loop over the pillars (amount present and non-negative, add), then the pillar contract
+    must hold the sum in ZNN -/
 def checkPillarBalance (c : Config) : Bool :=
-  checkAccountBalance c Gen.PillarContract [(Gen.ZnnTokenStandard, pillarSum c)]
-
-/-- `amount == nil || amount.Sign() < 0` is the error -/
-def amountOK (a : Option Int) : Bool :=
-  match a with
-  | none => false
-  | some v => decide (0 ≤ v)
+  c.pillars.all amountOK && checkAccountBalance c Gen.PillarContract [(Gen.ZnnTokenStandard, pillarSum c)]
 
 /-- first loop of `CheckTokenTotalSupply`, block by block in list order with the `seen` set: an address seen before is
     the error "more than one genesis block"; then every amount of the block must be present and non-negative -/
@@ -179,9 +194,10 @@ def Verdict.show : Verdict → String
 
 /-- `CheckGenesis`: the validators in the order of `Gen.checkGenesisOrder`, first refusal wins.
     Domain: the verdict CLASS is the real one wherever the real validators return (nil or an error). They dereference nil
-    — a Go panic, which `ReadGenesisConfigFromFile` now turns into `ErrInvalidGenesisConfig` — on a missing `TotalSupply`,
-    pillar `Amount` or fusion `Amount` (not representable here: never accepted) and on a nil amount under the required
-    token in an entry of the plasma / pillar / swap contract (the model refuses it in that validator). -/
+    — a Go panic, which `ReadGenesisConfigFromFile` now turns into `ErrInvalidGenesisConfig` — on a missing `TotalSupply`
+    (not representable here: never accepted) and on a nil amount under the required token in an entry of the plasma /
+    pillar / swap contract (the model refuses it in that validator). A missing pillar / fusion `Amount` is a refusal
+    since feb4686 and is inside the model. -/
 def checkGenesis (c : Config) : Verdict :=
   if !checkFieldsExist c then .fields
   else if !checkPlasmaInfo c then .plasma
